@@ -302,7 +302,9 @@ impl From<TypeNodeId> for StateType {
             ),
             Type::Tuple(elems) => StateType(elems.iter().map(|ty| ty.word_size() as u64).sum()),
             Type::Array(_elem_ty) => StateType(1),
-            _ => todo!(),
+            // Anything else (e.g. a `self` whose type was never constrained and is
+            // still unknown) occupies what `word_size` reserves for it on the stack.
+            _ => StateType(t.word_size() as u64),
         }
     }
 }
